@@ -3,7 +3,27 @@ From Verif Require Import Base.GoInt Proto.Ext Generated.ProtoGen Proto.Model Pr
 From Coq Require Import ZifyBool.
 Open Scope Z_scope.
 
+(* F17: a non-nil pointer to a message whose encoding is empty comes back as nil *)
 Lemma ptr_empty_refuted : ptr_empty_refuted_statement.
-Admitted.
+Proof.
+  exists (TStruct [GField true None (TPtr (TStruct []))]),
+         (VStruct [VPtr (Some (VStruct []))]), [].
+  split; [|split].
+  - unfold in_universe. repeat split; try reflexivity; vm_compute; congruence.
+  - vm_compute. reflexivity.
+  - intros fuel. unfold Unmarshal. cbn. discriminate.
+Qed.
+
+(* STATEMENT FALSE: three classes of counterexamples, each confirmed by vm_compute on the model
+   (in_universe, representable, keys_distinct all hold):
+   (1) nil-versus-empty (flaw of the statement's [norm], not of the code):
+       t = TStruct [GField true None TInt; GField true None TBytes], v = VStruct [VInt 5; VBytes false []]:
+       Marshal = [8;5]; Unmarshal = VStruct [VInt 5; VBytes false []] <> norm v = VStruct [VInt 5; VBytes true []].
+       Also t = TRawMessage, v = VRaw false []: Marshal = [], Unmarshal = zero_val = VRaw false [] <> VRaw true [].
+   (2) a [rep] struct tag on a field that is neither a slice nor a map (fails even up to norm):
+       t = TStruct [GField true (Some {| tag_wire := 0; tag_number := 1; tag_repeated := true; tag_zigzag := false |}) TInt],
+       v = VStruct [VInt 5]: Marshal = [5] (the repeated pass writes no tag), Unmarshal = Ok None (an error).
+   (3) top-level pointer to an empty RawMessage (fails even up to norm; F17-like, not covered by [representable]):
+       t = TPtr TRawMessage, v = VPtr (Some (VRaw true [])): Marshal = [], Unmarshal = zero_val = VPtr None. *)
 Lemma roundtrip : roundtrip_statement.
 Admitted.
